@@ -66,11 +66,12 @@ Section Prune.
   Variable H : bytes -> id.
   Variable zdecomp : bytes -> option bytes.
 
-  (* ---------- LocalStore.Prune ---------- *)
-  Definition prune_file (st : store) (keep : id -> bool) (pstr : bytes) (p : path) (s : node)
+  (* ---------- LocalStore.Prune (tmp_rule = true) and SFTPStore.Prune (tmp_rule = false: the same
+     callback without the temp-file rule) ---------- *)
+  Definition prune_file_gen (tmp_rule : bool) (st : store) (keep : id -> bool) (pstr : bytes) (p : path) (s : node)
     : node * option walk_err :=
     let nm := last p [] in                       (* filepath.Base(path) *)
-    if has_prefix nm tmpChunkPrefix_bytes then
+    if tmp_rule && has_prefix nm tmpChunkPrefix_bytes then
       (* _ = os.Remove(path) *)
       (match remove p s with Ok s' => s' | Err _ => s end, None)
     else
@@ -85,27 +86,14 @@ Section Prune.
                end
       end.
 
-  Definition prune (fuel : nat) (st : store) (basestr : bytes) (keep : id -> bool) (s : node)
+  Definition prune_gen (tmp_rule : bool) (fuel : nat) (st : store) (basestr : bytes) (keep : id -> bool) (s : node)
     : node * option walk_err :=
-    walk_root (fun s => s) (prune_file st keep) fuel basestr (st_base st) s.
+    walk_root (fun s => s) (prune_file_gen tmp_rule st keep) fuel basestr (st_base st) s.
 
-  (* ---------- SFTPStore.Prune: same walk, no temp-file rule ---------- *)
-  Definition sftp_prune_file (st : store) (keep : id -> bool) (pstr : bytes) (p : path) (s : node)
-    : node * option walk_err :=
-    match chunk_file_id (st_unc st) pstr (last p []) with
-    | None => (s, None)
-    | Some i =>
-        if keep i then (s, None)
-        else match remove_chunk st i s with
-             | RmOk s' => (s', None)
-             | RmMissing => (s, Some (WeMissing i))
-             | RmErr e => (s, Some (WeErrno e))
-             end
-    end.
-
-  Definition sftp_prune (fuel : nat) (st : store) (basestr : bytes) (keep : id -> bool) (s : node)
-    : node * option walk_err :=
-    walk_root (fun s => s) (sftp_prune_file st keep) fuel basestr (st_base st) s.
+  Definition prune_file := prune_file_gen true.
+  Definition prune := prune_gen true.
+  Definition sftp_prune_file := prune_file_gen false.
+  Definition sftp_prune := prune_gen false.
 
   (* ---------- LocalStore.Verify ---------- *)
   (* the walk only collects ids (it feeds them to the workers) *)
